@@ -31,27 +31,20 @@ import Csvq.Lemmas.SizeFacts
 namespace Csvq.C19
 open Csvq.SizeFacts
 
-/-- an obligation named without its line: file, function (`/func` = inside a function literal), site text, which bound, number
-    of occurrences, and the reason it is not proved here.  Reason classes:
-    N non-linear / floating-point arithmetic;  P a parameter, a field of another object or a result whose range is a contract
-    of the callee;  I an invariant between data structures kept by other functions;  S a result of a string search / conversion;
-    C a correlation the join of branches does not keep. -/
-structure SizeRef where
-  file : String
-  fn : String
-  expr : String
-  what : String
-  count : Nat
-  reason : String
-deriving Repr
-
-def SizeRef.is (r : SizeRef) (s : SizeSite) : Bool :=
-  r.expr == s.expr && r.what == s.what && r.fn == s.fn && r.file == s.file
-
 /-- the reviewed obligations the uniform tactic does not prove -/
 def exemptSizeSites : List SizeRef := [
   ⟨"lib/query/analytic_function.go", "perseCumulativeGroups", "groups[len(groups) - 1]", "low", 2, "I else-branch of `currentRank == nil || ...`: the first iteration takes the then-branch (currentRank starts nil) and appends a group (also pinned in C19Args)"⟩,
   ⟨"lib/query/built_in_command.go", "writeFieldList", "strings.Repeat(\" \", digits - len(idxstr))", "count", 1, "S digits = len(Itoa(l)) and idxstr = Itoa(i+1) with i+1 <= l: the decimal length is monotone"⟩,
+  ⟨"lib/query/built_in_command.go", "ShowObjects", "w.WriteSpaces(10 - len(norStr))", "arg0", 1, "P norStr = FormatInt(number of rows of an open cursor, \",\"): at most 10 characters up to 99,999,999 rows; SHOW CURSORS over a cursor of 100 million rows or more would make the count negative (observation recorded in DESIGN 11.9: not reachable within the memory bound of the harness)"⟩,
+  ⟨"lib/query/built_in_command.go", "ShowObjects", "w.WriteSpaces(27 - len(symbol))", "arg0", 1, "P symbol = \"@@\" + a name of option.FlagList: the longest, @@WRITE_DELIMITER_POSITIONS, has exactly 27 characters (driven: SHOW FLAGS in the report grid)"⟩,
+  ⟨"lib/query/built_in_command.go", "ShowObjects", "w.WriteSpaces(nameWidth - len(name))", "arg0", 1, "C nameWidth is the maximum of len(name) over the same names, computed by the range loop above (a loop forgets that the variable only grows); driven: SHOW ENV under hostile environments"⟩,
+  ⟨"lib/query/built_in_command.go", "ShowObjects", "w.WriteSpaces(19 - len(label))", "arg0", 1, "P label = \"@#\" + a name of RuntimeInformatinList: 19 characters at most (driven: SHOW RUNINFO)"⟩,
+  ⟨"lib/query/built_in_command.go", "writeTableAttribute", "w.WriteSpaces(encWidth + 4 - option.TextWidth(info.Format.String(), flags))", "arg0", 1, "P Format.String() is one of CSV TSV FIXED JSON JSONL LTSV GFM ORG BOX TEXT: at most 5 columns, and encWidth >= 4 is the width of an encoding name (AUTO UTF8 UTF8M UTF16 … SJIS); driven: SHOW FIELDS x every format x encoding"⟩,
+  ⟨"lib/query/built_in_command.go", "writeTableAttribute", "w.WriteSpaces(4 - (option.TextWidth(option.EscapeString(string(info.Delimiter)), flags)))", "arg0", 1, "P the delimiter is ONE rune: its escaped form is at most 2 columns wide (a two-character escape or a wide character); driven: SHOW FIELDS x delimiters of every width class"⟩,
+  ⟨"lib/query/built_in_command.go", "writeTableAttribute", "w.WriteSpaces(encWidth + 2 - (option.TextWidth(info.Encoding.String(), flags)))", "arg0", 1, "P encWidth IS option.TextWidth(info.Encoding.String(), flags), computed at the top of the function: the same call twice gives two unknowns"⟩,
+  ⟨"lib/query/built_in_command.go", "writeTableAttribute", "w.WriteSpaces(6 - (option.TextWidth(info.LineBreak.String(), flags)))", "arg0", 2, "P LineBreak.String() is one of LF CR CRLF: at most 4 columns"⟩,
+  ⟨"lib/query/load_view.go", "joinViews", "NewUintPool(view.FieldLen() - len(includeFields), LimitToUseUintSlicePool)", "arg0", 1, "I includeFields are fields of the same view (each was looked up in view.Header above): a sub-set"⟩,
+  ⟨"lib/query/reference_scope.go", "NewReferenceRecord", "NewFieldIndexCache(cacheLen, LimitToUseFieldIndexSliceChache)", "arg0", 1, "P parameter cacheLen handed on: every call of NewReferenceRecord is its own obligation (kind `call`; both pass view.FieldLen())"⟩,
   ⟨"lib/query/comparison.go", "matchTextTailOnce", "text[anyRunesMinLen:]", "low", 1, "I anyRunesMinLen counts underscores (parsePattern only increments it from 0); guarded by len(text) < anyRunesMinLen above"⟩,
   ⟨"lib/query/comparison.go", "matchTextTailOnce", "tailStr[:bidx]", "high", 1, "S bidx is a result of strings.Index(tailStr, ..) that is not negative: a byte offset inside tailStr"⟩,
   ⟨"lib/query/comparison.go", "matchTextTailOnce", "text[idx + 1 - anyRunesMinLen:]", "order", 1, "S idx = anyRunesMinLen + rune count of a prefix of the tail that is followed by a match of a non-empty word, so idx + 1 <= len(text) (C19-m10 is the seeded change of this site; driven by the like-multibyte grid)"⟩,
